@@ -481,3 +481,241 @@ Proof.
   exact (conj H1 (conj H2 (parse_enc_event_view _ (login_view_readable aid t e Ht)))).
 Qed.
 Print Assumptions C06_json_login_line.
+
+(* ====================================================================================================
+   C06_regex_… — the regular-expression primitive under every theorem above (group R)
+
+   The guards and handlers of Model/SshdProc.v call Lib.Regex.find / matches on the GENERATED item lists of
+   Gen/SshdRegexes.v.  Until now "find returns Go's leftmost-first match" rested on the matcher being the
+   textbook one.  Model/RegexSpec.v gives flat patterns a declarative semantics that does not mention the
+   matcher's recursion - a PARSE assigns every item the piece of text it consumes, [Parse T its p ops ls e pcs];
+   [Match] = a parse of the whole pattern at an offset inside the text; Go/Perl LEFTMOST-FIRST priority =
+   smaller start offset first, then lexicographically by the star lengths in pattern order, LONGER first
+   ([prefers], [lex_ge]); [Best] = the match no other match beats - and the statements below hold for EVERY item
+   list (well-formed or not), EVERY text, EVERY start offset: no fuel, no length bound (find is a structural
+   Fixpoint on the item list and the text, hence total; there is no out-of-fuel value).
+
+   Covered Go regexps (what tools/go2v/regex.go:flatten admits after regexp/syntax Parse(Perl) + Simplify;
+   everything else is emitted as UNSUPPORTED_<name>, which does not type-check): concatenations of literals
+   (OpLiteral, no case folding), single-character classes (OpCharClass / OpAnyCharNotNL / OpAnyChar, a class
+   must hold all or none of the non-ASCII runes: classBytes) alone or under greedy * / + (x+ = IOne x; IStar x;
+   a single such item over a class WITH the non-ASCII runes that is not the head of x+ is IRune x: one UTF-8
+   decoding step, go2v runeItems), capture groups (OpCapture), ^ and $ as text anchors (OpBeginText / OpEndText).
+   Refused: alternation, nested or counted repetition, non-greedy operators, ?, word boundaries, multi-line
+   anchors, case folding, and every pattern that is not rune-safe (go2v runeSafe; see C06_regex_rune_* below).
+
+   Still assumed (trusted base), now exercised function by function on every run by stage harness/prims
+   (Model/PrimsCheck.v): that Go's regexp implements this semantics for these patterns, and bytes vs runes
+   (see C06_regex_rune_* below). *)
+From AM Require Import Lib.Bytes Lib.Regex Model.RegexSpec Proofs.RegexSpecLemmas Gen.SshdRegexes.
+
+(* SOUNDNESS + PRIORITY.  Whatever find returns is a match of the pattern - a parse, starting inside the text -
+   it is THE leftmost-first match (no match starts earlier; among those starting there none has a longer
+   earlier star), and the reported captures are exactly the text between the parse's group offsets. *)
+Theorem C06_regex_find_sound : forall its T r,
+  find its T = Some r ->
+  exists ls pcs, Best its T (m_start r) ls (m_end r) pcs /\ m_caps r = rev (str_caps T pcs).
+Proof. exact find_sound. Qed.
+Print Assumptions C06_regex_find_sound.
+
+(* COMPLETENESS.  If the pattern has any parse at any offset of the text, find returns a match (none is
+   missed), and that match is not beaten by the given one. *)
+Theorem C06_regex_find_complete : forall its T p ls e pcs,
+  Match its T p ls e pcs ->
+  exists r ls0 pcs0, find its T = Some r /\ Best its T (m_start r) ls0 (m_end r) pcs0 /\ prefers (m_start r) ls0 p ls.
+Proof. exact find_complete. Qed.
+Print Assumptions C06_regex_find_complete.
+
+Theorem C06_regex_find_none : forall its T,
+  find its T = None <-> forall p ls e pcs, ~ Match its T p ls e pcs.
+Proof. exact find_none_iff. Qed.
+Print Assumptions C06_regex_find_none.
+
+(* THE CHARACTERISATION: find = the string view of the unique best match. *)
+Theorem C06_regex_find_iff : forall its T r,
+  find its T = Some r <->
+  exists ls pcs, Best its T (m_start r) ls (m_end r) pcs /\ m_caps r = rev (str_caps T pcs).
+Proof. exact find_iff. Qed.
+Print Assumptions C06_regex_find_iff.
+
+Theorem C06_regex_best_unique : forall its T p ls e pcs p' ls' e' pcs',
+  Best its T p ls e pcs -> Best its T p' ls' e' pcs' -> p = p' /\ ls = ls' /\ e = e' /\ pcs = pcs'.
+Proof. exact Best_unique. Qed.
+Print Assumptions C06_regex_best_unique.
+
+(* the order is a total order on the parses of one pattern (they have one length per star) *)
+Theorem C06_regex_order : forall l l',
+  (lex_ge l l' -> lex_ge l' l -> l = l') /\ (length l = length l' -> lex_ge l l' \/ lex_ge l' l) /\
+  (forall l'', lex_ge l l' -> lex_ge l' l'' -> lex_ge l l'').
+Proof. exact lex_ge_order. Qed.
+Print Assumptions C06_regex_order.
+
+Theorem C06_regex_parse_stars : forall T its p ops ls e pcs, Parse T its p ops ls e pcs -> length ls = nstars its.
+Proof. exact Parse_stars. Qed.
+Print Assumptions C06_regex_parse_stars.
+
+(* MatchString *)
+Theorem C06_regex_matches_iff : forall its T,
+  matches its T = true <-> exists p ls e pcs, Match its T p ls e pcs.
+Proof. exact matches_iff. Qed.
+Print Assumptions C06_regex_matches_iff.
+
+(* captures are verbatim sub-ranges of the text, inside the match: T = before ++ capture ++ after *)
+Theorem C06_regex_captures_verbatim : forall its T r g v,
+  find its T = Some r -> In (g, v) (m_caps r) ->
+  exists a b, m_start r <= a /\ a <= b /\ b <= m_end r /\ m_end r <= length T /\
+              v = sub T a b /\ T = (firstn a T ++ v ++ skipn b T)%list.
+Proof. exact find_caps_substrings. Qed.
+Print Assumptions C06_regex_captures_verbatim.
+
+(* the matched text is the concatenation of the pieces the items consume (anchors and group marks consume
+   nothing): [Shape its ls w] spells the pattern out as a word *)
+Theorem C06_regex_match_is_concatenation : forall T its p ops ls e pcs,
+  Parse T its p ops ls e pcs -> p <= length T -> Shape its ls (sub T p e).
+Proof. exact Parse_shape. Qed.
+Print Assumptions C06_regex_match_is_concatenation.
+
+(* the matcher with accumulators (m) and the scan (find) are the string images of the instrumented matcher
+   whose result the correspondence stage compares index by index with regexp.FindStringSubmatchIndex *)
+Theorem C06_regex_find_idx_agrees : forall its T,
+  match find_parse its T with
+  | Some pm =>
+      find its T = Some (rmatch_of T pm) /\
+      find_idx its T = Some (N.of_nat (pm_start pm) :: N.of_nat (pm_end pm)
+                             :: flat_map (group_idx (pm_caps pm)) (seq 1 (ngroups its))) /\
+      forall g, cap g (rmatch_of T pm) =
+                match lookup_g g (rev (pm_caps pm)) with Some (a, b) => sub T a b | None => [] end
+  | None => find its T = None /\ find_idx its T = None
+  end.
+Proof. exact find_idx_agrees. Qed.
+Print Assumptions C06_regex_find_idx_agrees.
+
+Theorem C06_regex_find_parse_iff : forall its T pm,
+  find_parse its T = Some pm <-> Best its T (pm_start pm) (pm_stars pm) (pm_end pm) (pm_caps pm).
+Proof. exact find_parse_iff. Qed.
+Print Assumptions C06_regex_find_parse_iff.
+
+(* a list of star lengths accepted by the checker is a parse (used to exhibit the competitors below) *)
+Theorem C06_regex_parse_with_sound : forall T its pos ops ls e pcs, pos <= length T ->
+  parse_with its pos (skipn pos T) ops ls = Some (e, pcs) -> Parse T its pos ops ls e pcs.
+Proof. exact parse_with_sound. Qed.
+Print Assumptions C06_regex_parse_with_sound.
+
+(* ---------- examples on generated patterns: the hypotheses are met on non-trivial inputs ---------- *)
+Open Scope string_scope.
+
+(* failedPasswordAuthRE, a user name that contains the literal " from " that follows its field, and a source that
+   contains " port ": two fields must backtrack.  The match found: user "a from b", source "c port 1". *)
+Definition ex_fp_text : str := s2l "Failed password for a from b from c port 1 port 22 ssh2".
+Example C06_regex_example_failed_password :
+  find_parse failedPasswordAuthRE ex_fp_text =
+    Some {| pm_start := 0; pm_end := 55; pm_stars := [8; 8; 1; 0];
+            pm_caps := [(1, (20, 28)); (2, (34, 42)); (3, (48, 50))] |}
+  /\ Best failedPasswordAuthRE ex_fp_text 0 [8; 8; 1; 0] 55 [(1, (20, 28)); (2, (34, 42)); (3, (48, 50))]
+  /\ (* a competitor: the user field cut at the FIRST " from " is a parse too, and it is beaten *)
+     Match failedPasswordAuthRE ex_fp_text 0 [1; 15; 1; 0] 55 [(1, (20, 21)); (2, (27, 42)); (3, (48, 50))]
+  /\ prefers 0 [8; 8; 1; 0] 0 [1; 15; 1; 0]
+  /\ option_map (fun r => (cap 1 r, cap 2 r, cap 3 r)) (find failedPasswordAuthRE ex_fp_text)
+     = Some (s2l "a from b", s2l "c port 1", s2l "22").
+Proof.
+  assert (E : find_parse failedPasswordAuthRE ex_fp_text =
+    Some {| pm_start := 0; pm_end := 55; pm_stars := [8; 8; 1; 0];
+            pm_caps := [(1, (20, 28)); (2, (34, 42)); (3, (48, 50))] |}) by (vm_compute; reflexivity).
+  split; [exact E|]. split; [exact (proj1 (C06_regex_find_parse_iff _ _ _) E)|].
+  split; [split; [vm_compute; apply Nat.leb_le; reflexivity|apply C06_regex_parse_with_sound; [apply Nat.leb_le; reflexivity|vm_compute; reflexivity]]|].
+  split; [right; split; [reflexivity|apply LG_gt; apply Nat.ltb_lt; reflexivity]|].
+  vm_compute. reflexivity.
+Qed.
+
+(* loginRE is unanchored: text in front of the message, a complete second message behind it.  The match starts
+   at the FIRST message (offset 4) and its greedy user field reaches up to the second message's " from ". *)
+Definition ex_login_text : str :=
+  s2l "xyz Accepted publickey for u from h port 1 ssh2: RSA SHA256:k Accepted publickey for v from g port 2 ssh2: ED SHA256:j".
+Example C06_regex_example_login :
+  option_map (fun pm => (pm_start pm, pm_end pm, pm_stars pm)) (find_parse loginRE ex_login_text) = Some (4, 118, [59; 1; 1; 0; 8; 0])
+  /\ (exists pcs, Best loginRE ex_login_text 4 [59; 1; 1; 0; 8; 0] 118 pcs)
+  /\ (* the second message alone is a match too (start 62): it starts later, so it loses *)
+     (exists pcs, Match loginRE ex_login_text 62 [1; 1; 1; 0; 8; 0] 118 pcs)
+  /\ (* and so is the first message cut at its own fields (start 4, shorter user field) *)
+     (exists e pcs, Match loginRE ex_login_text 4 [1; 1; 1; 0; 9; 0] e pcs)
+  /\ option_map (fun r => cap 1 r) (find loginRE ex_login_text)
+     = Some (s2l "u from h port 1 ssh2: RSA SHA256:k Accepted publickey for v").
+Proof.
+  destruct (find_parse loginRE ex_login_text) as [pm|] eqn:E; [|vm_compute in E; discriminate].
+  assert (Hv : (pm_start pm, pm_end pm, pm_stars pm) = (4, 118, [59; 1; 1; 0; 8; 0])) by (vm_compute in E; injection E as <-; reflexivity).
+  split; [cbn; f_equal; exact Hv|].
+  split.
+  { exists (pm_caps pm). injection Hv as <- <- <-. apply C06_regex_find_parse_iff. exact E. }
+  split.
+  { destruct (parse_with loginRE 62 (skipn 62 ex_login_text) [] [1; 1; 1; 0; 8; 0]) as [[e pcs]|] eqn:P; [|vm_compute in P; discriminate].
+    assert (e = 118) by (vm_compute in P; injection P as <- _; reflexivity). subst e.
+    exists pcs. split; [apply Nat.leb_le; reflexivity|]. apply C06_regex_parse_with_sound; [apply Nat.leb_le; reflexivity|exact P]. }
+  split.
+  { destruct (parse_with loginRE 4 (skipn 4 ex_login_text) [] [1; 1; 1; 0; 9; 0]) as [[e pcs]|] eqn:P; [|vm_compute in P; discriminate].
+    exists e, pcs. split; [apply Nat.leb_le; reflexivity|]. apply C06_regex_parse_with_sound; [apply Nat.leb_le; reflexivity|exact P]. }
+  vm_compute. reflexivity.
+Qed.
+
+(* ---------- bytes and runes ----------
+   Go's regexp consumes RUNES (utf8.DecodeRuneInString steps; an invalid byte is U+FFFD, one byte), the items
+   ILit / IOne / IStar consume BYTES.  DESIGN.md section 3 said the two coincide for the generated patterns; the
+   function-level stage found that false for the two patterns ending in an unescaped dot
+   (reverseMappingCheckFailedRE, doesNotMapBackToAddrRE: a final multi-byte rune is ONE `.` for Go, the byte item
+   consumed one byte and `$` failed).  Repaired (group R): such an item is now IRune (below: on an ASCII byte it IS
+   IOne, so the theorems above are unchanged), and the condition under which byte-level stars and rune-level stars
+   stop at the same places is explicit, [rune_safe] (Model/RegexSpec.v), refused by go2v when violated and
+   re-checked here of the generated patterns:
+     - every class holds all or none of the bytes >= 0x80 ([classes_uniform]);
+     - a single BYTE item over a class with them is the head of x+ ([items_rune_safe]);
+     - a greedy star over such a class is followed, behind group marks, by an ASCII literal, a byte of an
+       ASCII-only class, $ or the pattern's end ([follow_ok]);
+     - the pattern is anchored or starts with an ASCII literal / ASCII-only class ([start_ok]).
+   Proved at byte level: the offset of an ASCII byte and the end of the text are rune boundaries of Go's decoding
+   loop in ANY byte string; hence such a star ends at a rune boundary in every parse, and IRune consumes exactly one
+   decoding step.  What remains assumed: that Go's regexp, on rune-safe patterns, is this semantics (exercised by
+   stage prims on multi-byte runes, invalid UTF-8 and NUL for all 20 patterns). *)
+Example C06_regex_all_patterns_rune_safe : forallb (fun p => rune_safe (snd p)) all_regexes = true.
+Proof. vm_compute. reflexivity. Qed.
+
+Example C06_regex_all_patterns_listed : map fst all_regexes = all_regex_names /\ length all_regexes = 20.
+Proof. vm_compute. split; reflexivity. Qed.
+
+Theorem C06_regex_rune_on_ascii : forall k r pos x s ops cs,
+  (N_of_ascii x <? 128)%N = true ->
+  m (IRune k :: r) pos (x :: s) ops cs = m (IOne k :: r) pos (x :: s) ops cs.
+Proof. exact m_rune_ascii. Qed.
+Print Assumptions C06_regex_rune_on_ascii.
+
+Theorem C06_regex_ascii_offset_is_boundary : forall T q,
+  q = length T \/ (exists c, nth_error T q = Some c /\ is_ascii c = true) -> Boundary T q.
+Proof. exact ascii_offset_is_boundary. Qed.
+Print Assumptions C06_regex_ascii_offset_is_boundary.
+
+Theorem C06_regex_star_ends_at_boundary : forall T k r p ops n ls e pcs,
+  Parse T (IStar k :: r) p ops (n :: ls) e pcs ->
+  follow_ok r = true -> classes_uniform r = true -> only_marks r = false -> Boundary T (p + n).
+Proof. exact star_ends_at_boundary. Qed.
+Print Assumptions C06_regex_star_ends_at_boundary.
+
+Theorem C06_regex_rune_item_is_one_step : forall T k r p ops ls e pcs,
+  Parse T (IRune k :: r) p ops ls e pcs -> Boundary T p ->
+  exists c, nth_error T p = Some c /\ in_cls k c = true /\
+            Boundary T (p + snd (Utf8.decode_rune (skipn p T))) /\
+            Parse T r (p + snd (Utf8.decode_rune (skipn p T))) ops ls e pcs.
+Proof. exact rune_item_is_one_step. Qed.
+Print Assumptions C06_regex_rune_item_is_one_step.
+
+(* the final dot of the reverse-mapping message is one rune: "é" (2 bytes), an invalid byte; not two runes *)
+Example C06_regex_example_final_rune :
+  let pre := s2l "reverse mapping checking getaddrinfo for a [b] failed" in
+  matches reverseMappingCheckFailedRE (pre ++ s2l ".")%list = true /\
+  matches reverseMappingCheckFailedRE (pre ++ hx "c3a9")%list = true /\
+  matches reverseMappingCheckFailedRE (pre ++ hx "f09f9880")%list = true /\
+  matches reverseMappingCheckFailedRE (pre ++ hx "ff")%list = true /\
+  matches reverseMappingCheckFailedRE (pre ++ hx "e282")%list = false /\
+  matches reverseMappingCheckFailedRE (pre ++ s2l "..")%list = false /\
+  matches reverseMappingCheckFailedRE pre = false /\
+  option_map (fun pm => (pm_end pm, pm_caps pm)) (find_parse reverseMappingCheckFailedRE (pre ++ hx "c3a9")%list)
+    = Some (55, [(1, (41, 42)); (2, (44, 45))]).
+Proof. vm_compute. repeat split; reflexivity. Qed.
+Close Scope string_scope.
